@@ -371,6 +371,25 @@ theorem C11_reread_history_any (f f' : Field) (os : List IOp) (hl : Lay f) (ho :
     obtain ⟨r1, r2, r3⟩ := C11_lay_reads f1 hl1
     exact ⟨f1, rfl, h, hl1, r1, r2, r3⟩
 
+/-- (3) for calls made through live handles (`Op`: positions instead of indices): when the position
+    holds a node of the handle's kind — which `HOk` keeps true of every live handle through every
+    operation (`C11_handles_history`) — and the operands are valid, the call keeps the layout -/
+theorem C11_lay_step_handle (f f' : Field) (hl : Lay f) (op : Op) (ho : op.layH f) (h : step f op = .ok f') :
+    Lay f' := lay_step f f' hl op ho h
+
+/-- … over whole histories of calls through handles: the field after the history is a layout and
+    re-reads to the list model of its tree -/
+theorem C11_reread_history_handles (f f' : Field) (ops : List Op) (hl : Lay f) (ho : laysH f ops)
+    (h : run f ops = .ok f') :
+    Lay f'
+      ∧ (∃ a : FieldA, a.WF ∧ f'.root.text = a.str ∧ abs f'.root = itemsA a)
+      ∧ (∀ allow : Bool, allow = true ∨ noSubst (abs f'.root) = true →
+          (readRelaxed f'.root.text allow).2 = [] ∧ abs (readRelaxed f'.root.text allow).1 = abs f'.root)
+      ∧ (noSubst (abs f'.root) = true → ∃ t, readStrict f'.root.text = .ok t ∧ abs t = abs f'.root) := by
+  have hl' := lay_run f f' hl ops ho h
+  obtain ⟨r1, r2, r3⟩ := C11_lay_reads f' hl'
+  exact ⟨hl', r1, r2, r3⟩
+
 /-! ### the list model the text re-reads to is the one run next to the tree -/
 
 theorem shaped_lkids (l : List LSeg) : Shaped (lkids l) := by
@@ -559,5 +578,10 @@ example : noSubst (abs lyF.root) = false := by decide +kernel
     token added by `add_profile`), the entry pushed behind the trailing comma that `remove_entry` left -/
 example : (irun lyF lyOps).map (·.root.text)
     = .ok "n | m:any (>= 1), m:any\t| c:any   [i386] <x> | n, ${x} , m:any (>= 1)".toList := by decide +kernel
+
+/-- calls through handle positions on that field: the RELATION node `c:any  ` at (5, 4), the entry at 0 -/
+example : (Op.removeRelationAt 5 4).layH lyF := ⟨_, _, rfl, rfl, rfl, rfl⟩
+example : (Op.entryPush 0 (toLossless lyN)).layH lyF := ⟨⟨_, rfl, rfl⟩, relOperand_built lyN (by decide +kernel)⟩
+example : laysH lyF [.removeEntryAt 0] := ⟨⟨_, rfl, rfl⟩, fun _ _ => trivial⟩
 
 end Deb822Verif.Props.C11Layout
